@@ -228,6 +228,19 @@ def resentFirst (tr : List Ev) : Bool :=
     | none => false
   | _ => true
 
+/-- "A single transient write failure does not lose an idempotent command": in a history with one injected fault (and no
+    close / reset by the user) only messages without retries may be discarded for having used up their retries - the retries
+    of a message are not to be spent on a connection the client already knows to be lost -/
+def keptAcrossSingleFault (tr : List Ev) : Bool :=
+  if faultCount tr ≠ 1 then true else
+  if tr.any (fun ev => match ev with | .apiClose _ | .apiReset _ => true | _ => false) then true else
+  tr.all fun
+    | .qdrop s _ .maxRetries =>
+      match acceptedAt tr s with
+      | some (_, _, r, _) => r == 0
+      | none => true
+    | _ => true
+
 def c02 (tr : List Ev) : Bool := attemptsBounded tr && neverAtOrAfterExpiry tr && resentFirst tr
 
 /-! ## C16 — bounded buffer (histories: sends while the link is down, then a connection) -/
